@@ -149,17 +149,32 @@ inductive Lexeme [NumOps N] (cc : CharClass) : Token N → Str → Prop
   | num {x v} : numShape cc x = true → NumOps.parse x = some v → Lexeme cc (.literal (.num v)) x
   | str {s} : Lexeme cc (.literal (.str s)) (quote s)
 
+/-- how the text after a lexeme can interfere with it -/
+inductive LexClass | word | number | string | less | greater | slash | plain
+deriving DecidableEq
+
+def lexClass : Token N → LexClass
+  | .identifier _ | .and | .or | .xor | .not | .div | .mod | .literal (.bool _) => .word
+  | .literal (.num _) => .number
+  | .literal (.str _) => .string
+  | .less => .less
+  | .greater => .greater
+  | .slash => .slash
+  | _ => .plain
+
 /-- `fuse cc t x c`: the character `c` directly after the text `x` of token `t` would be read as part of it
-    (or, for `/`, turn it into a comment start) -/
+    (or, for `/`, turn it into a comment start):
+    identifier / keyword / true / false — an identifier character; number — a numeric character, or '.' if the
+    number has none yet; string — a quote; `<` — `=` or `>`; `>` — `=`; `/` — `/`; every other token — nothing. -/
 def fuse (cc : CharClass) (t : Token N) (x : Str) (c : Char) : Bool :=
-  match t with
-  | .identifier _ | .and | .or | .xor | .not | .div | .mod | .literal (.bool _) => isIdentCont cc c
-  | .literal (.num _) => cc.isNumeric c || (c == '.' && !numHasDot cc x)
-  | .literal (.str _) => c == '\''
+  match lexClass t with
+  | .word => isIdentCont cc c
+  | .number => cc.isNumeric c || (c == '.' && !numHasDot cc x)
+  | .string => c == '\''
   | .less => c == '=' || c == '>'
   | .greater => c == '='
   | .slash => c == '/'
-  | _ => false
+  | .plain => false
 
 /-- `rest` does not continue the lexeme `x` of `t` -/
 def NoCont (cc : CharClass) (t : Token N) (x : Str) (rest : Str) : Prop := HeadNot (fuse cc t x) rest
@@ -275,7 +290,7 @@ theorem punct_reads [NumOps N] {cc : CharClass} (hcc : cc.AsciiOk) (x rest : Str
   all_goals simp only [List.append_eq, List.nil_append, List.cons_append]
   all_goals first
     | (intro h; exact absurd h (by decide))
-    | (intro _ r hr'; subst hr'; have := hr.of_cons; simp [fuse] at this)
+    | (intro _ r hr'; subst hr'; have := hr.of_cons; simp [fuse, lexClass] at this)
     | skip
   all_goals
     simp (disch := decide) only [nextToken, special_identStart hcc, special_numeric hcc, Bool.false_eq_true,
@@ -285,7 +300,7 @@ theorem punct_reads [NumOps N] {cc : CharClass} (hcc : cc.AsciiOk) (x rest : Str
     | nil => rfl
     | cons d r =>
       have := hr.of_cons
-      simp only [fuse, Bool.or_eq_false_iff, beq_eq_false_iff_ne, ne_eq] at this
+      simp only [fuse, lexClass, Bool.or_eq_false_iff, beq_eq_false_iff_ne, ne_eq] at this
       simp [this]
 
 /-- the one-token lemma: at a token boundary, a lexeme of `t` followed by text that does not continue it is read
